@@ -535,4 +535,11 @@ Section Proofs.
     rewrite !glue_args_lemma, (fields_render_lemma lead pairs L T S), (fields_render_lemma lead' pairs' L' T' S').
     now apply order_tokens_lemma.
   Qed.
+  (* the requested shape: applying the line's overrides to ANY configuration, keys met in any order *)
+  Lemma apply_overrides_lemma : forall l l' c, Permutation l l' -> NoDup (map fst l) ->
+    override l c = override l' c.
+  Proof. intros l l' c P ND. now apply override_perm. Qed.
+
+  Lemma key_writes_own_field_lemma : forall k v c c' n, set_field k v c = Some c' -> n <> k -> get n c' = get n c.
+  Proof. intros k v c c' n H Hn. now apply (set_field_get_other k v c c' H n Hn). Qed.
 End Proofs.
